@@ -22,14 +22,23 @@ Lemma go_add_spec w a b : go_add w a b = (a + b) mod 2 ^ w.
 Proof. reflexivity. Qed.
 
 Lemma go_shl_shl64 x d : go_shl 64 x d = shl64 x d.
-Proof. reflexivity. Qed.
+Proof.
+  apply N.bits_inj. intro k. rewrite shl64_spec. unfold go_shl.
+  change (N.shiftl x d mod 2 ^ 64) with (trunc 64 (shl x d)). rewrite trunc_spec, shl_spec.
+  destruct (k <? 64), (k <? d); reflexivity.
+Qed.
 
 Lemma go_shl_bit64 k : go_shl 64 1 k = bit64 k.
-Proof. reflexivity. Qed.
+Proof.
+  apply N.bits_inj. intro j. rewrite bit64_spec. unfold go_shl.
+  change (N.shiftl 1 k mod 2 ^ 64) with (trunc 64 (onebit k)). rewrite trunc_spec, onebit_spec.
+  destruct (j <? 64); reflexivity.
+Qed.
 
 Lemma bit64_small k : k < 64 -> bit64 k = 2 ^ k.
 Proof.
-  intros Hk. unfold bit64, trunc64, trunc, onebit, pow2. rewrite N.shiftl_1_l.
+  intros Hk. unfold bit64. replace (64 <=? k) with false by (symmetry; apply N.leb_gt; exact Hk).
+  unfold trunc64, trunc, onebit, pow2. rewrite N.shiftl_1_l.
   apply N.mod_small. apply N.pow_lt_mono_r; lia.
 Qed.
 
